@@ -1190,6 +1190,9 @@ pub fn work_list(cfg: &RunCfg) -> Option<WorkList> {
                     inject_items(w, "capture-restore", None, &mut fixed);
                 }
             }
+            for w in ["(?:(a)|(b))(c)", "(a)?(b)", "(a)(b)?(c)", "(a)?(b)?(c)", "((a)|b)(c)", "(?:(a)|(b)|(c))", "(a)?(?:(b)|(c))", "(a|(b))(c)?(a)"].iter() {
+                inject_items(w, "delegate-groups", None, &mut fixed);
+            }
             for (k, w) in corpus::compile_matrix(thorough).iter().enumerate() {
                 // every injection site of every matrix pattern is a lot: quick takes a tenth
                 if thorough || k % 10 == 0 {
@@ -1228,6 +1231,13 @@ pub fn work_list(cfg: &RunCfg) -> Option<WorkList> {
                 .iter()
                 .map(|s| s.to_string())
                 .collect();
+            // patterns that denote cased characters without spelling a letter (ranges with
+            // punctuation end points that span letters, titlecase and special-folding letters),
+            // and patterns whose only letters are in escapes or flags (seed S7-C14)
+            for w in ["[@-_]+", "[@-_](?=!)", "(?<![@-_])!", "([@-_])\\1", "[^@-_]", "[ -~]\\b", "[^ -@]+(?=)", "\u{1c5}", "\u{1c5}(?=)", "[\u{1c4}-\u{1c6}]", "\u{17f}", "\u{212a}(?!1)",
+                      "\\x41", "\\x{61}(?=)", "\\p{Lu}", "\\p{Ll}(?=)", "\\w\\b", "(?s).\\b", "[@-_]|(?-i:[@-_]{2})", "(?-i:[@-_])[@-_]"].iter() {
+                ws.push(w.to_string());
+            }
             ws.extend(corpus::exhaustive(&ATOMS_CASE, &OPS_QUICK, if thorough { 3 } else { 2 }));
             for ctx in corpus::contexts(corpus::FEATS_C01) {
                 for f in corpus::exhaustive(&ATOMS_CASE, &OPS_QUICK, 2) {
